@@ -355,6 +355,7 @@ class Engine:
         self.events = []          # ('alloc', what) / ('dealloc', obj) ...
         self.alloc_events = 0
         self.summaries_used = set()
+        self.work = 0
         self.summary_counts = {}
         self.bodies_used = set()
         # path / solver
@@ -1153,7 +1154,7 @@ class Engine:
             for x in v.fields:
                 self.drop_value(x, ety)
             return
-        if hs == 'Vec':
+        if hs in ('Vec', 'VecDeque'):
             v = self.read(ptr)
             if not isinstance(v, Own):
                 raise Unsupported('drop of Vec value %r' % (v,))
